@@ -1,6 +1,6 @@
 import Driver.Parse
 import Driver.Blake3
-import EchoVerif.Model.Wal
+import EchoVerif.Model.WalDurable
 import EchoVerif.Generated.WalTables
 
 namespace Driver.C10
@@ -165,7 +165,7 @@ def cut : P String := do
     let b := encLog cfg H txs
     let cuts := cutSet b.length stride (recordEnds txs)
     let res := cuts.map (fun m =>
-      (m, match recoverSegmentBytes cfg H s.params.segmentId (b.take m) mode with
+      (m, match recoverSegmentBytesT cfg H s.params.segmentId (b.take m) mode with
           | .ok (_, r) => shortReport r
           | .error e => "E" ++ rErr e))
     pure (s!"len={b.length} dig {(HExpr.h [.raw b]).render} cuts={cuts.length} ;" ++ rle res)
@@ -175,17 +175,17 @@ def recoverBytes : P String := do
   let seg ← num
   let b ← bytes
   done
-  match recoverSegmentBytes cfg H seg b mode with
+  match recoverSegmentBytesT cfg H seg b mode with
   | .ok (d, r) => pure (s!"ok seg={bytesToHex (d.take 8)} " ++ longReport r)
   | .error e => pure ("err " ++ rErr e)
 
 def fs : P String := do
   let b ← bytes
   done
-  match afterWritableRecovery cfg H b with
+  match afterWritableRecoveryT cfg H b with
   | .error e => pure ("err " ++ rErr e)
   | .ok (r1, b2) =>
-    let second := match recoverFilesystem cfg H b2 .writable with
+    let second := match recoverFilesystemT cfg H b2 .writable with
       | .ok r2 => longReport r2
       | .error e => "err " ++ rErr e
     pure (s!"r1: {longReport r1} ; file {b2.length} {(HExpr.h [.raw b2]).render} ; r2: {second}")
@@ -204,12 +204,12 @@ partial def walkEnds (b : Bytes) (off : Nat) (acc : List Nat) : List Nat :=
 def rewrite : P String := do
   let b ← bytes
   done
-  match afterWritableRecovery cfg H b with
+  match afterWritableRecoveryT cfg H b with
   | .error e => pure ("err " ++ rErr e)
   | .ok (r1, b2) =>
     let cuts := cutSet b2.length 0 (walkEnds b2 0 [])
     let res := cuts.map (fun m =>
-      (m, match recoverFilesystem cfg H (b2.take m) .readOnly with
+      (m, match recoverFilesystemT cfg H (b2.take m) .readOnly with
           | .ok r => shortReport r
           | .error e => "E" ++ rErr e))
     pure (s!"r1: {shortReport r1} ; file {b2.length} {(HExpr.h [.raw b2]).render} ;" ++ rle res)
@@ -219,8 +219,57 @@ def blake3 : P String := do
   done
   pure (bytesToHex (H b))
 
+/-! ### C10.host: the abstract host model (`Wal.Host`) on an op list; envelope i ↦ sid i, receipt 100+i,
+    state root 200+i (the real values are digests; both sides print envelope indices only) -/
+
+open EchoVerif.Wal.Host in
+def hostView (h : Host.Host) : String :=
+  let c := h.disk.committed
+  let acc := (List.range 3).filter (fun i => (accIndex c).lookup i |>.isSome)
+  let out := (List.range 3).filter (fun i => (ticksOf c).lookup i |>.isSome)
+  s!"R[acc={",".intercalate (acc.map toString)};out={",".intercalate (out.map toString)}]"
+
+def hostFault (s : String) : Except String Host.Fault :=
+  match s with
+  | "" => .ok .none | "a" => .ok .appendFrame | "f" => .ok .flushCommit | "m" => .ok .markerSynced
+  | o => .error s!"bad fault {o}"
+
+def respTok : Host.Resp → String
+  | .ackNew _ _ => "ackNew" | .ackDup _ _ => "ackDup" | .outcome _ _ _ => "out" | .err => "err" | .idle => "idle"
+
+open EchoVerif.Wal.Host in
+def host : P String := do
+  let ops ← counted tok
+  done
+  let mut h : Host.Host := Host.init
+  let mut out : List String := []
+  for o in ops do
+    if o == "k" then
+      h := Host.restart h
+      out := out ++ [hostView h]
+    else
+      let parts := o.splitOn ":"
+      let head := parts.headD ""
+      let f ← match hostFault ((parts.drop 1).headD "") with
+        | .ok f => pure f
+        | .error e => throw e
+      let i ← match (head.drop 1).toNat? with
+        | some i => pure i
+        | none => throw s!"bad op {o}"
+      let states := if head.startsWith "s" then Host.submitStates id h i f else Host.tickStates h i (100 + i) (200 + i) f
+      h := Host.lastState h states
+      out := out ++ [match h.resps.head? with | some r => respTok r | none => "?"]
+  h := Host.restart h
+  out := out ++ [hostView h]
+  pure (" ".intercalate out)
+
+def hostx : P String := do
+  let _ ← counted tok
+  done
+  pure "-"
+
 def handlers : List (String × (List String → String)) :=
   [("C10.blake3", runP blake3), ("C10.cut", runP cut), ("C10.bytes", runP recoverBytes), ("C10.fs", runP fs),
-   ("C10.rewrite", runP rewrite)]
+   ("C10.rewrite", runP rewrite), ("C10.host", runP host), ("C10.hostx", runP hostx)]
 
 end Driver.C10
